@@ -196,6 +196,27 @@ theorem coordinate_field_syntax (la lo al : UInt64) (fa fo fl : Dec.Parts) (ha :
   · simp only [customText, l3, ofOpt, Option.bind_some, Fmt.sprintf, f3, Fmt.sprintfItems, Option.map_some,
       List.append_nil, List.cons_append, List.nil_append]
 
+/-- every positioning triple is written `int,int,0|1` -/
+theorem positioning_field_syntax (d p : Int) (i : Bool) :
+    ∃ t, customText Spec.schema "Positioning" (.struct [.int d, .int p, .bool i]) = .ok t ∧
+      Spec.isPositioning t = true := by
+  have l : Spec.schema.lit "Positioning.MarshalXML" 0 = some "%d,%d,%d" := by decide +kernel
+  have f : Fmt.parseFormat "%d,%d,%d".toList = some [Fmt.Item.d 0, .lit ',', .d 0, .lit ',', .d 0] := by decide
+  refine ⟨_, ?_, Spec.positioning_syntax d p i⟩
+  simp only [customText, l, ofOpt, Option.bind_some, Fmt.sprintf, f, Fmt.sprintfItems, Option.map_some,
+    List.append_nil, List.cons_append, List.nil_append]
+
+/-- every relative offset (finite distance, non-negative duration) is written `d.d,MM:SS.cc` -/
+theorem relative_to_start_field_syntax (b : UInt64) (f : Dec.Parts) (hf : Dec.classify b = .finite f) (n : Nat) :
+    ∃ t, customText Spec.schema "RelativeToStart" (.struct [.flt b, .int (n : Int)]) = .ok t ∧
+      Spec.isRelToStart t = true := by
+  have l : Spec.schema.lit "RelativeToStart.MarshalXML" 0 = some "%.1f,%s" := by decide +kernel
+  have fm : Fmt.parseFormat "%.1f,%s".toList = some [Fmt.Item.f 1, .lit ',', .s] := by decide
+  refine ⟨_, ?_, Spec.relToStart_syntax b f hf (n / 60000000000) (n % 60000000000 / 1000000000)
+    (n % 1000000000 / 10000000) (by omega) (by omega)⟩
+  simp only [customText, Spec.durationString_nonneg, bind, Outcome.bind, l, ofOpt, Option.bind_some, Fmt.sprintf, fm,
+    Fmt.sprintfItems, Option.map_some, List.append_nil, List.cons_append, List.nil_append]
+
 /-- non-vacuity / regression witness: the text that exposed `&quote;` -/
 example : unescape (replaceAll (pairsOf Spec.schema.replacer) (goEscape ['a', '"', 'b'])) = some ['a', '"', 'b'] := by
   decide
